@@ -59,9 +59,37 @@ pub struct Stats {
     pub other_entry: AtomicU64,
 }
 
-/// words a sampler of a power-of-two range refuses under rand 0.8 (whether they really are refused is
-/// observed at run time, not assumed: a prefix word that is accepted simply ends the sample early)
-const REFUSED: [u32; 4] = [0xffff_ffff, 0x0000_2010, 0xdead_bfff, 0x2000_0030];
+/// Words the sampler of type T refuses as its first draw, found at run time by driving the real sampler: a word
+/// is refused when the sample consumes more words than it does for the always-accepted word 0. Candidates: a
+/// fixed list, the top of the u32 range downwards, then a fixed LCG sequence. A sampler that never refuses
+/// (none found) gets the fixed list (its words are then simply accepted and end the sample early).
+fn refused_for<T: Fx>() -> [u32; 4]
+where
+    Standard: Distribution<T>,
+{
+    const FIXED: [u32; 4] = [0xffff_ffff, 0x0000_2010, 0xdead_bfff, 0x2000_0030];
+    let st = Stats { max_words: AtomicU64::new(0), other_entry: AtomicU64::new(0) };
+    let base = sample_one::<T>([0; 4], 1, &st).2;
+    let mut found: Vec<u32> = vec![];
+    let mut lcg: u64 = 0x1234_5678_9abc_def1;
+    let cands = FIXED.iter().copied().chain((0..4096u32).map(|i| u32::MAX - i * 17)).chain((0..2_000_000u32).map(move |_| {
+        lcg = lcg.wrapping_mul(6364136223846793005).wrapping_add(1442695040888963407);
+        (lcg >> 32) as u32
+    }));
+    for w in cands {
+        if found.len() == 4 {
+            break;
+        }
+        if !found.contains(&w) && sample_one::<T>([w, 0, 0, 0], 1, &st).2 > base {
+            found.push(w);
+        }
+    }
+    if found.len() == 4 {
+        [found[0], found[1], found[2], found[3]]
+    } else {
+        FIXED
+    }
+}
 
 /// one sample under the script `w[..n]` (filler past the script: 0)
 fn sample_one<T: Fx>(w: [u32; 4], n: usize, st: &Stats) -> (bool, u32, usize)
@@ -85,6 +113,8 @@ fn cell<T: Fx>(name: String, space: Space, words: usize, st: Arc<Stats>) -> Cell
 where
     Standard: Distribution<T>,
 {
+    #[allow(non_snake_case)]
+    let REFUSED = refused_for::<T>();
     CellDef::new("C19", name, space, move |k| {
         let w1 = k as u32;
         let w2 = (k >> 32) as u32;
